@@ -307,6 +307,12 @@ example : (run false (init Nat 3) [.create 10 0, .create 11 0, .close 0 (fun _ =
 example : (step false (init Nat 2) (.create 10 (-35))).1.slots = [none, none] ∧
     (step false (init Nat 2) (.create 10 (-35))).2 = (.ret (-35), -1) := by decide
 example : (closeStatus 0 0 0 2 0 0 0).1 = NC_EPENDING := by decide
+/-- a table that meets the hypotheses of `check_id_partial` (consistent, probed id open) and one
+    that meets those of `check_id_null_iff`'s right-hand side (the F1 situation) -/
+example : Consistent (⟨[some 1, none], 1⟩ : Tab Nat) ∧ (∃ p, (⟨[some 1, none], 1⟩ : Tab Nat).slots[(0 : Int).toNat]? = some (some p)) :=
+  ⟨by simp [Consistent, countSome], ⟨1, rfl⟩⟩
+example : checkId false (⟨[none, some 1], 1⟩ : Tab Nat) 0 = Chk.null := by
+  rw [check_id_null_iff]; decide
 
 def obligations : List String := [
   "reachable_inv", "check_id_counterexample", "check_id_null_iff", "check_id_partial", "check_id_spec_repaired",
